@@ -172,6 +172,10 @@ func c18Eval(r *core.Run, c *c18Case) {
 					report("testmain", fmt.Sprintf("_test/_testmain.go classified %v", cl.Location))
 					return
 				}
+				if f.Exists && cl.LocalSrcPath != f.Local {
+					report("testmain-local", fmt.Sprintf("%s exists locally as %s but LocalSrcPath=%q", cl.RemoteSrcPath, f.Local, cl.LocalSrcPath))
+					return
+				}
 				continue
 			}
 			if nested && f.Class == gen.FSGoMod {
